@@ -311,6 +311,9 @@ func c09Structural(parent, h *bsctypes.Header, epoch uint64) string {
 		if vb%20 != 0 {
 			return "epoch-validator-bytes"
 		}
+		if vb == 0 {
+			return "epoch-no-validators" // the client would be left without validators
+		}
 	} else if vb != 0 {
 		return "non-epoch-validator-bytes"
 	}
@@ -395,6 +398,12 @@ func (w *c09World) apply(r *Rec, op string) string {
 		}
 		write()
 		r.Count("create.accepted")
+		if h.Height.IsZero() {
+			w.find(r, "C09:client-created-at-height-zero", "a client was created at height 0-0", "created", "rejected by ClientState.Validate")
+		}
+		if len(h.Extra) >= 97 && len(h.Extra)-97 < 20 {
+			w.find(r, "C09:client-created-without-validators", "a client was created from an epoch header that carries no validators", "created", "rejected")
+		}
 		w.created, w.chainID, w.epoch, w.head, w.startH = true, chainID, epoch, h, h.Height.RevisionHeight
 		if a, ok := c09Recover(h, chainID); ok {
 			w.sealedBy[h.Height.RevisionHeight] = a
